@@ -48,7 +48,7 @@ for _nm, _std, _extra in (('tswap_aeq', 'c++20', dict(props=['C18', 'C17'])), ('
     add(_cf)
 
 # capacity pairs: conversions between containers of different inline capacity (source role M)
-PAIR_ONLY = ['sv_ctor__psvM', 'svb_ctor__psvbM', 'svb_move_assign_default__psvbM', 'svb_move_assign__psvbM', 'svb_copy_assign_default__pcsvbM', 'svb_copy_assign__pcsvbM',
+PAIR_ONLY = ['sv_assign__psvM', 'sv_ctor__psvM', 'svb_ctor__psvbM', 'svb_move_assign_default__psvbM', 'svb_move_assign__psvbM', 'svb_copy_assign_default__pcsvbM', 'svb_copy_assign__pcsvbM',
              'svb_ctor__psvbM', 'svb_ctor__pcsvbM_pcA', 'svb_move_assign_unequal_no_propagate__psvbM', 'sv_assign__psvM', 'sv_assign__pcsvM']
 _PF = {'MOVE_NOEXCEPT': 1, 'COPYABLE': 1, 'RELOCATE_WITH_MOVE': 1, 'POCCA': 0, 'POCMA': 0, 'POCS': 0, 'ALWAYS_EQUAL': 0}
 add(_c('pair_lt', N=3, M=2, only=PAIR_ONLY, facts=dict(_PF, M_LT_N=1, M_GT_N=0)))      # source inline capacity smaller than the destination's
@@ -170,7 +170,7 @@ QUICK = {
             'pocma': ['svb_move_assign_default__psvb', 'svb_move_assign__psvb', 'svb_copy_assign__pcsvb']},
     'C09': {'main': ['svb_move_assign_default__psvb', 'svb_swap_default', 'svb_ctor__psvb', 'svb_move_assign_unequal_no_propagate__psvb', 'svb_swap_unequal_no_propagate', 'svb_dtor', 'svb_ctor__pcA'],
             'pocs': ['svb_swap__psvb', 'svb_swap_default', 'svb_move_assign_default__psvb'], 'aeq': ['svb_swap_default', 'svb_move_assign_default__psvb'],
-            'pair_lt': ['svb_move_assign_default__psvbM']},
+            'pair_lt': ['svb_move_assign_default__psvbM', 'svb_move_assign__psvbM'], 'pair_gt': ['svb_move_assign__psvbM', 'svb_move_assign_unequal_no_propagate__psvbM']},
     'C10': {'main': ['svb_append_element__pcE', 'svb_append_element__pE', 'svb_append_copies', 'svb_request_capacity', 'svb_emplace_into_current__pE_pcE',
                      'svb_emplace_into_reallocation__pE_pcE', 'svb_erase_range', 'svb_erase_at', 'svb_erase_last', 'svb_erase_all', 'svb_erase_to_end', 'svb_assign_with_copies',
                      'svb_copy_assign_default__pcsvb', 'svb_append_range__strong_pcE_pcE', 'svb_resize_with__ul', 'svb_insert_copies@trivial', 'svb_insert_copies@realloc',
@@ -196,8 +196,8 @@ QUICK = {
             'std17': ['nm_op_eq__pcsv_pcsv', 'nm_op_ne__pcsv_pcsv', 'nm_op_lt__pcsv_pcsv', 'nm_op_ge__pcsv_pcsv', 'nm_op_gt__pcsv_pcsv', 'nm_op_le__pcsv_pcsv', 'nm_size__pcsv',
                       'nm_ssize__pcsv', 'nm_empty__pcsv', 'nm_data__psv', 'nm_begin__psv', 'nm_end__psv', 'nm_swap__psv_psv', 'nm_erase__psv_pcE']},
     'C15': {'main': ['ai_external_range_length__FI_FI', 'ai_default_uninitialized_copy__FI_FI_pE', 'svb_append_range__strong_FI_FI', 'ai_external_range_length__pcE_pcE',
-                     'svb_ctor__ul_pG_pcA', 'svb_ctor__II_II_pcA', 'svb_append_range__II_II', 'svb_append_range__strong_II_II', 'svb_assign_with_range__II_II', 'svb_insert_range__pE_II_II']},
-    'C18': {'pair_gt': ['svb_ctor__psvbM', 'sv_ctor__psvM'], 'pair_lt': ['svb_ctor__psvbM', 'sv_ctor__psvM'],
+                     'svb_ctor__ul_pG_pcA', 'svb_ctor__II_II_pcA', 'svb_append_range__II_II', 'svb_append_range__strong_II_II', 'svb_assign_with_range__II_II', 'svb_insert_range__pE_II_II', 'sv_append__II_II', 'sv_ctor__II_II_pcA']},
+    'C18': {'pair_gt': ['svb_ctor__psvbM', 'sv_ctor__psvM', 'sv_assign__psvM'], 'pair_lt': ['svb_ctor__psvbM', 'sv_ctor__psvM', 'sv_assign__psvM', 'svb_move_assign__psvbM'],
             'pocs': ['sv_op_assign__psv', 'sv_swap'], 'pocma': ['sv_op_assign__psv', 'sv_assign__psv', 'sv_swap'], 'aeq': ['sv_op_assign__psv', 'sv_swap'],
             'tmove': ['sv_ctor__psv', 'sv_op_assign__psv'], 'n0': ['sv_ctor__psv'], 'tswap_aeq': ['sv_swap', 'svb_swap_elements'],
             'main': ['sv_ctor__pcA', 'sv_ctor__psv', 'sv_op_assign__psv', 'sv_assign__psv', 'sv_swap', 'sv_get_allocator', 'sv_max_size', 'sv_empty', 'ai_external_range_length__FI_FI', 'ai_destroy_range__pE_pE', 'svb_erase_last', 'svb_erase_all', 'svb_erase_to_end', 'svb_dtor', 'svb_ctor__pcA', 'svb_ctor__psvb',
